@@ -68,6 +68,11 @@ class Context:
             if not os.path.exists(path):
                 raise RuntimeError("fact file missing: %s" % path)
             c = ir.load(d, pkg)
+            if pkg != "adf_bdd" and os.path.exists(os.path.join(d, "adf_bdd.json")):
+                libc = ir.load(d, "adf_bdd")
+                c.adts_all = dict(libc.adts)
+                c.adts_all.update(c.adts)
+                c.lib = libc
             self.crates[key] = c
             self.stats["bodies"]["%s/%s" % (config.name, pkg)] = len(c.all_bodies)
             floor = {"adf_bdd": 300, "adf-bdd-bin": 30, "adf-bdd-server": 150}.get(pkg, 1)
